@@ -1,6 +1,7 @@
 package main
 
 import (
+	"strings"
 	"fmt"
 	"go/token"
 	"go/types"
@@ -109,6 +110,18 @@ func (f *FuncVC) allocObject(st *State, t types.Type, ptrTy types.Type) *Val {
 func (f *FuncVC) step(st *State, ins ssa.Instruction) {
 	if p := ins.Pos(); p.IsValid() {
 		f.curPos = p
+	}
+	if f.con != nil && len(f.con.Covers) > 0 && f.pure == 0 {
+		if _, isDbg := ins.(*ssa.DebugRef); !isDbg && ins.Pos().IsValid() {
+			line := f.eng.sourceLine(ins.Pos())
+			for _, c := range f.con.Covers {
+				if !f.covered[c] && strings.Contains(line, c) {
+					f.covered[c] = true
+					// the statement must be reachable under the contracts: "unsat" is a violation
+					f.obls = append(f.obls, &Obligation{Name: f.name() + "#reach:" + c, Kind: "reach", Func: f.name(), Prefix: len(f.sc.cmds), PC: st.pc, Goal: "false", Expect: "sat", fv: f})
+				}
+			}
+		}
 	}
 	switch x := ins.(type) {
 	case *ssa.DebugRef:
